@@ -348,6 +348,59 @@ fn run(kind: &str, input: &Value) -> Value {
             let cs: Vec<Value> = calls.iter().map(|(p, s)| json!([p, s])).collect();
             json!([cs, res_json(r)])
         }
+        // long pagination runs.  in = [api, cfgmode, ps, max | null, npages]
+        // cfgmode 0: PaginationConfig { page_size: ps, max_pages: max }; 1: ::default();
+        // 2: { max_pages: max, ..Default::default() }; 3: { page_size: ps, ..Default::default() }.
+        // Page i < npages is [i] with has_more = (i < npages-1); beyond that an empty final page.
+        // out = [fetches, page arguments were 0,1,2.. in order, last page argument, min and max
+        //        page_size argument (-1 if none), class, items, first, last, sum]
+        "plong" => {
+            let api = input[0].as_i64().unwrap();
+            let mode = input[1].as_i64().unwrap();
+            let ps = input[2].as_u64().unwrap() as u32;
+            let max = input[3].as_u64().map(|m| m as u32);
+            let npages = input[4].as_u64().unwrap();
+            let cfg = match mode {
+                0 => PaginationConfig { page_size: ps, max_pages: max },
+                1 => PaginationConfig::default(),
+                2 => PaginationConfig { max_pages: max, ..Default::default() },
+                _ => PaginationConfig { page_size: ps, ..Default::default() },
+            };
+            let mut calls: Vec<(u32, u32)> = Vec::new();
+            let fetch = |page: u32, psz: u32| -> CloudResult<(Vec<i64>, bool)> {
+                assert!(calls.len() < 100_000, "runaway pagination");
+                calls.push((page, psz));
+                let i = u64::from(page);
+                if i < npages { Ok((vec![i as i64], i + 1 < npages)) } else { Ok((vec![], false)) }
+            };
+            let r = match api {
+                0 => paginate(&cfg, fetch),
+                1 => run_paginated_operation(&cfg, fetch),
+                _ => run_cloud_io_paginated(&cfg, fetch),
+            };
+            let in_order = calls.iter().enumerate().all(|(i, c)| c.0 as usize == i);
+            let last_page = calls.last().map_or(-1, |c| i64::from(c.0));
+            let ps_min = calls.iter().map(|c| i64::from(c.1)).min().unwrap_or(-1);
+            let ps_max = calls.iter().map(|c| i64::from(c.1)).max().unwrap_or(-1);
+            match r {
+                Ok(v) => json!([calls.len(), in_order, last_page, ps_min, ps_max, 0, v.len(),
+                                v.first().copied().unwrap_or(-1), v.last().copied().unwrap_or(-1),
+                                v.iter().sum::<i64>()]),
+                Err(e) => json!([calls.len(), in_order, last_page, ps_min, ps_max,
+                                 code_of(&e.kind), 0, -1, -1, 0]),
+            }
+        }
+        // the Default impls are part of the behaviour: observe their fields.  in = [0]
+        // out = [[max_attempts, initial_delay_ms, max_delay_ms, multiplier >= 2.0, multiplier == 2.0],
+        //        [page_size, max_pages | null], [chunk_size, parallel]]
+        "defaults" => {
+            let r = RetryConfig::default();
+            let p = PaginationConfig::default();
+            let b = BatchConfig::default();
+            json!([[r.max_attempts, r.initial_delay_ms, r.max_delay_ms, r.backoff_multiplier >= 2.0,
+                    r.backoff_multiplier == 2.0],
+                   [p.page_size, p.max_pages], [b.chunk_size, b.parallel]])
+        }
         // in = [mode, sym]; utils::with_timeout on a single operation.
         // mode 0: timeout 1 h, instantaneous op; 1: timeout zero, clock made to advance;
         // 2: timeout 5 ms, op sleeps 25 ms; 3: timeout 2 s, op sleeps 2 ms.   out = [calls, class, origin+1]
@@ -724,6 +777,22 @@ fn generate(seed: u64, tier: Tier, em: &mut Emitter) {
             len >= 2,
             &["random", "paginate"],
         );
+    }
+
+    // 6b. long pagination runs through every entry point and every way of building the
+    //     configuration; page counts around 1000 and 5000, limits around them and none
+    em.case("defaults", json!([0]), true, &["defaults"]);
+    for api in 0..3 {
+        for npages in [0u64, 1, 2, 999, 1000, 1001, 1005, 5000] {
+            let nt = npages >= 2;
+            for max in [None, Some(999u32), Some(1000), Some(1001), Some(1005), Some(5000), Some(u32::MAX)] {
+                em.case("plong", json!([api, 0, 25, max, npages]), nt, &["long", "paginate"]);
+            }
+            em.case("plong", json!([api, 1, 0, null, npages]), nt, &["long", "paginate", "default-config"]);
+            em.case("plong", json!([api, 2, 0, null, npages]), nt, &["long", "paginate", "default-config"]);
+            em.case("plong", json!([api, 2, 0, 1000, npages]), nt, &["long", "paginate", "default-config"]);
+            em.case("plong", json!([api, 3, 7, null, npages]), nt, &["long", "paginate", "default-config"]);
+        }
     }
 
     // 7. run_parallel
